@@ -111,6 +111,8 @@ def run(tier, seed, replay=None):
                                          "cB cA {attach {to = @1; at {x = bb.right; y = bb.top + ascent}; with {x = bb.left; y = bb.bottom}}; shift.x = @1.advancewidth / 4} / _ _; endtable;\n")
     # the `descent` metric (known finding: libgraphite2 1.3.14 refuses metric 11 wherever it is used)
     rich["descent_metric"] = H + GL + "table(pos) cB cA {shift.y = descent} / _ _; endtable;\n"
+    # automatic kerning without any collision-fixing pass (known finding: the engine refuses the font)
+    rich["autokern_without_collisionfix"] = H + GL + "table(pos) pass(1) {AutoKern = 1} cA {shift.y = 5m}; endpass; endtable;\n"
     rich["attach_at_metrics_nowith"] = H + GL + "table(pos) cA cB {attach {to = @1; at {x = advancewidth; y = bb.height / 2}}} / _ ^ _; endtable;\n"
     rich["lb_items_pos"] = H + GL + "table(pos) cA {shift.x = 5m} / _ # cB; cB {advance.x += 3m} / cA # _; endtable;\n"
     rich["lb_items"] = H + GL + "table(sub) cA > cB / # _; cB > cA / _ #; cA cB > cB cA / # _ _ #; endtable;\n"
@@ -166,6 +168,8 @@ def run(tier, seed, replay=None):
                 sig = None
                 if rname == "justification_pass" and bad == ["libgraphite2 rejects the font (gr_make_file_face/gr_make_seg failed)"]:
                     sig = "C03:font-with-a-justification-pass-rejected-by-libgraphite2"
+                if rname == "autokern_without_collisionfix" and bad == ["libgraphite2 rejects the font (gr_make_file_face/gr_make_seg failed)"]:
+                    sig = "C03:font-with-autokern-but-no-collisionfix-pass-rejected-by-libgraphite2"
                 if rname == "descent_metric" and bad == ["libgraphite2 rejects the font (gr_make_file_face/gr_make_seg failed)"]:
                     sig = "C03:font-using-the-descent-glyph-metric-rejected-by-libgraphite2"
                 rep.violation(nm, {"case": nm, "options": opts, "checker_lines": bad, "gdl": rich[rname],
